@@ -19,7 +19,9 @@ Algs(f) == CASE f = "sm2" -> {"SM2WithSM3", "SM2WithSHA1", "SM2WithSHA256"}
 Default(f) == CASE f = "sm2" -> "SM2WithSM3" [] f = "rsa" -> "SHA256WithRSA" [] f = "ecdsa256" -> "ECDSAWithSHA256" [] f = "ecdsa384" -> "ECDSAWithSHA384"
 Kinds == {"cert", "csr", "crl", "revlist"}
 \* template classes for certificates (field groups that must survive the round trip)
-Classes == {"plain", "serial20", "names", "usages", "ekus", "ca_pathlen0", "ca_pathlen2", "sans", "constraints", "policies", "extraext", "validity_edges"}
+Classes == {"plain", "serial20", "names", "usages", "ekus", "ca_pathlen0", "ca_pathlen2", "sans", "constraints", "policies", "extraext", "validity_edges",
+            \* the certified key has a coordinate with a leading zero byte (the point is written with fixed-width coordinates)
+            "subjkey_shortx", "subjkey_shorty"}
 Eff(f, a) == IF a = "unset" THEN Default(f) ELSE a
 \* symbolic signing: what is signed, by which key
 SignedInput(alg, tbs) == IF alg \in Algs("sm2") THEN <<"raw", tbs>> ELSE <<"digest", alg, tbs>>
@@ -29,13 +31,17 @@ Create(f, a, tbs) == [alg |-> Eff(f, a), tbs |-> tbs, sig |-> Sig(f, SignedInput
 
 VARIABLES c, done
 Cases == UNION {{[kind |-> k, signer |-> f, alg |-> a, class |-> "plain"] : k \in Kinds, a \in {"unset"} \cup Algs(f)} : f \in Families} \cup
-         {[kind |-> "cert", signer |-> "sm2", alg |-> "SM2WithSM3", class |-> cl] : cl \in Classes}
+         {[kind |-> "cert", signer |-> "sm2", alg |-> "SM2WithSM3", class |-> cl] : cl \in Classes} \cup
+         \* a request carries its signer's own key: signers whose public key has a short coordinate
+         {[kind |-> "csr", signer |-> "sm2", alg |-> "SM2WithSM3", class |-> cl] : cl \in {"subjkey_shortx", "subjkey_shorty"}}
 Init == c \in Cases /\ done = FALSE
 Next == /\ ~done /\ done' = TRUE /\ c' = c
         /\ LET o == Create(c.signer, c.alg, "tbs") IN
            PrintT(<<"CASE", ToJson([case |-> c, expect |-> [created |-> TRUE, alg |-> o.alg,
                                      verifies |-> VerifyUnder(o, c.signer), other_key |-> VerifyUnder(o, "other"),
-                                     tampered |-> VerifyUnder([o EXCEPT !.tbs = "tbs'"], c.signer)]])>>)
+                                     tampered |-> VerifyUnder([o EXCEPT !.tbs = "tbs'"], c.signer),
+                                     \* another encoding of "the same" numbers (s + n, r + n) is another signature value
+                                     resigned |-> VerifyUnder([o EXCEPT !.sig = <<"sig", c.signer, <<"other value">>>>], c.signer)]])>>)
 Spec == Init /\ [][Next]_<<c, done>>
 Contract == LET o == Create(c.signer, c.alg, "tbs") IN
             /\ VerifyUnder(o, c.signer) /\ ~VerifyUnder(o, "other") /\ ~VerifyUnder([o EXCEPT !.tbs = "x"], c.signer)
